@@ -378,7 +378,9 @@ def install_mutations(w):
 
     def post_const_ints(c: Ctx):
         r, v = c.result, c["val"]
-        if isinstance(r, VNone) or isinstance(v, VNone):
+        if isinstance(v, VNone):
+            return z3.BoolVal(isinstance(r, VNone))
+        if isinstance(r, VNone):
             return z3.BoolVal(True)
         k = z3.Int("k!ci")
         h = hv(c.ex)
